@@ -1099,6 +1099,9 @@ func protoCmd(args []string) error {
 		if ff || ri%3 == 2 || *only != "" {
 			nb = 0 // fault-free runs and the scenario library (which cuts a replica off itself) have no faulty replica
 		}
+		if *only == "coop" {
+			nb = f // scenario "coop": the Byzantine replicas lead their views with well-formed blocks that repeat client commands
+		}
 		byz := map[hotstuff.ID]bool{}
 		for len(byz) < nb {
 			byz[hotstuff.ID(1+rng.Intn(n))] = true
@@ -1184,6 +1187,10 @@ func protoCmd(args []string) error {
 		}
 		if len(byz) == 0 {
 			pByz = 0
+		}
+		if *only == "coop" {
+			r.coop = true
+			pLose, pDup, pTimeout, pByz, pNewest = 0, 0, 3, 5, 0
 		}
 		// ---- asynchronous / adversarial phase
 		// isolation plan: for runs of 2-5 consecutive views one honest replica (often the leader of one of those views) is cut off
